@@ -214,6 +214,8 @@ def run_history(ctx, vfs, iface, app, url_path, file_path, seq, start_frac, zone
                     # (a bare If-Modified-Since is a date compared with the file's change time: what counts for it is whether THAT moved to another second)
                     sec = "same-second" if (int(j["c"]) == int(cur["c"]) and (base == "lm" or int(j["m"]) == int(cur["m"]))) else "different-second"
                     vform = {"lm": "last-modified-only", "both": "etag+last-modified"}.get(base, "etag-form:" + base)
+                    if base == "lm" and sec == "same-second":
+                        why = "rewritten-within-the-second-of-the-date-held"  # one mechanism, whatever the rewrite altered (size, mtime): a date with 1 s granularity cannot tell the versions apart
                     ctx.violation(f"stale-304|{vform}|{sec}|{why}", case,
                                   f"step {step} {op}: validators of version {j['ver']} (size {j['size']}, mtime {j['m']}) got 304 although the file is "
                                   f"version {cur['ver']} (size {cur['size']}, mtime {cur['m']})")
@@ -233,7 +235,7 @@ def run_history(ctx, vfs, iface, app, url_path, file_path, seq, start_frac, zone
     return nontriv
 
 
-REGRESSION = [("list-first", "back2.5", "other-keepm", "adv2.5", "both0", "same", "lm"), ("etag", "adv2.5", "other", "back2.5", "other-keepm", "lm"), ("truncate0", "adv1", "other-keepm", "other-keepm", "list-long", "etag0"), ("adv1", "same", "back2.5", "same", "etag0"), ("back2.5", "same", "etag"), ("list-long",), ("etag-range",), ("lm-range",), ("other", "etag-range"), ("adv1", "other-keepm", "lm"), ("adv2.5", "other-keepm", "both"), ("list-empty",), ("list-comma",), ("other", "both"), ("weaklist",), ("list-last",), ("other", "lm"), ("adv1", "touch", "etag"), ("same", "adv2.5", "etag0"),
+REGRESSION = [("back2.5", "truncate0", "adv2.5", "other-keepm", "other-keepm", "lm-range"), ("list-first", "back2.5", "other-keepm", "adv2.5", "both0", "same", "lm"), ("etag", "adv2.5", "other", "back2.5", "other-keepm", "lm"), ("truncate0", "adv1", "other-keepm", "other-keepm", "list-long", "etag0"), ("adv1", "same", "back2.5", "same", "etag0"), ("back2.5", "same", "etag"), ("list-long",), ("etag-range",), ("lm-range",), ("other", "etag-range"), ("adv1", "other-keepm", "lm"), ("adv2.5", "other-keepm", "both"), ("list-empty",), ("list-comma",), ("other", "both"), ("weaklist",), ("list-last",), ("other", "lm"), ("adv1", "touch", "etag"), ("same", "adv2.5", "etag0"),
               ("other", "adv1", "other", "lm0"), ("adv0.4", "same", "both"), ("touch", "weak"), ("adv1", "same", "lm")]
 
 
